@@ -35,7 +35,7 @@ RULE = ("a case is a batch of generated contents of one table kind (cmap format 
         "minimal font around the bytes. A content is non-trivial/distinct by (table kind, format decision "
         "signature observed in the bytes, size class)")
 ASSUMPTIONS = [
-    "valid content is the generators' contract (vmon/gen/c02_*.py): cmap 4 keys <= 0xFFFE, cmap 0 codes and gids < 256, "
+    "valid content is the generators' contract (vmon/gen/c02_*.py): cmap 4 keys <= 0xFFFF, cmap 0 codes and gids < 256, "
     "cmap 2 lead bytes outside the one-byte span, cmap 6 at most 32762 entries (uint16 length), name strings encodable in the "
     "record's encoding and without NUL, glyf point-to-point deltas and composed coordinates fit int16, F2Dot14 transform "
     "entries in [-2, 2), kern <= 65535 pairs, glyph names <= 63 characters, glyph ids < numGlyphs <= 65535, integer gvar deltas",
@@ -808,7 +808,7 @@ def cases(tier, seed):
             add("colr", version=0, shape=shape, part=part, reps=3 * R)
     for shape in GCo.V1_SHAPES:
         for part in range(1 if shape == "many_layers_256" and not T_ else P):
-            add("colr", version=1, shape=shape, part=part, reps=1 if shape == "many_layers_256" else 3 * R)
+            add("colr", version=1, shape=shape, part=part, reps=1 if shape == "many_layers_256" else 4 if shape == "reuse_many" else 3 * R)
     return cs
 
 
@@ -3630,7 +3630,7 @@ def drv_colr(case, rnd, ctx):
     modes = {m: int(getattr(hb.PaintCompositeMode, m.upper())) for m in G.COMPOSITE_MODES}
     extends = {e: int(getattr(hb.PaintExtend, e.upper())) for e in ("pad", "repeat", "reflect")}
     for rep in range(case["reps"]):
-        n = rnd.choice([8, 30])
+        n = rnd.choice([8, 30]) if shape != "reuse_many" else 340
         names = _names(n)
         npal = rnd.randint(1, 6)
         pal = [(rnd.randrange(256) / 255, rnd.randrange(256) / 255, rnd.randrange(256) / 255, rnd.choice([255, 128, 0, rnd.randrange(256)]) / 255)
